@@ -5,6 +5,7 @@ import (
 	"encoding/json"
 	"flag"
 	"fmt"
+	"github.com/josephburnett/jd/v2/verif/simos"
 	"os"
 	"os/exec"
 	"path/filepath"
@@ -126,6 +127,7 @@ func fidelityMain(args []string) {
 		s.FileChunk = 0
 		s.StdoutTTY = false
 		s.Env = nil
+		s.Clock = simos.ClockPolicy{} // the real binary runs on the real clock of an idle machine: the steady one is its counterpart
 		if len(s.Links) > 0 {
 			continue // symbolic links are not materialised for the cross-check
 		}
